@@ -18,6 +18,14 @@ def _lift(x):
   return x
 
 
+def _cmp_operand(o):
+  if isinstance(o, Jet):
+    return o.v
+  if type(o) is float and (o != o or o in (float("inf"), float("-inf"))):
+    return o
+  return Jet(o, 0.0, 0.0).v
+
+
 class Jet(object):
   __slots__ = ("v", "d1", "d2")
 
@@ -120,15 +128,16 @@ class Jet(object):
     return mathshim.exp(self * mathshim.log(b))
 
   # comparisons look at the value only
-  def __lt__(self, o): return self.v < Jet.of(o).v
-  def __le__(self, o): return self.v <= Jet.of(o).v
-  def __gt__(self, o): return self.v > Jet.of(o).v
-  def __ge__(self, o): return self.v >= Jet.of(o).v
+  # (an infinite concrete bound, e.g. `r < float("inf")`, is compared as it is: symbolic reals are finite)
+  def __lt__(self, o): return self.v < _cmp_operand(o)
+  def __le__(self, o): return self.v <= _cmp_operand(o)
+  def __gt__(self, o): return self.v > _cmp_operand(o)
+  def __ge__(self, o): return self.v >= _cmp_operand(o)
 
   def __eq__(self, o):
     if not (_num(o) or isinstance(o, Jet)):
       return False
-    return self.v == Jet.of(o).v
+    return self.v == _cmp_operand(o)
 
   def __ne__(self, o):
     if not (_num(o) or isinstance(o, Jet)):
